@@ -92,8 +92,11 @@ def _default_policy(a, b):
 
 
 def expected_path(case):
-    """path-selection predicate of the property's anchor (decides the witness
-    class only, never the expected result)"""
+    """path-selection predicate of the property's anchor as it was when the
+    defects were found (receiver without metadata, or both functions None,
+    under union/union).  It only labels the call configuration in the witness
+    class (so a re-introduced defect prints the class recorded in
+    C09_findings.md); it never decides the expected result."""
     s = case['ops'][0]
     no_md = s.get('omd', 'none') == 'none' and s.get('smd', 'none') == 'none'
     ignore = case['f'] == 'none_none'
